@@ -330,12 +330,19 @@ func ResetPools() {
 	poolMu.Unlock()
 }
 
+// SeamPool switches the sync.Pool seam on or off (it is on for every simulated
+// run: the real pool depends on GC timing, and in race builds the overlay makes
+// it drop everything, which would hide objects shared through it).
+//
 //go:norace
-func poolSeamOn() bool { return permOn }
+func SeamPool(on bool) { poolOn = on }
+
+//go:norace
+func poolSeamOn() bool { return poolOn }
 
 //go:norace
 func poolDecision() (uint32, bool) {
-	if !permOn {
+	if !poolOn {
 		return 0, false
 	}
 	return next(&poolsS), true
